@@ -25,7 +25,7 @@ SrcOf == [f \in AllFiles |->
             THEN st[CHOOSE i \in 1..Len(ExtsOf(ty)) : ExtsOf(ty)[i] = f[2]] ELSE None]
 E0 == [cache |-> [k \in {TheKey} |-> None], src |-> SrcOf, dirs |-> {}, baddirs |-> [d \in {} |-> "x"],
        hasR |-> FALSE, msgs |-> <<>>, gen |-> 1, nread |-> 0, nrdir |-> 0, nldr |-> 0,
-       fault |-> None, dropped |-> {}, reads |-> <<>>, fixGoi |-> FALSE, unrec |-> {}, stale |-> {}, fhit |-> FALSE, taint |-> {}]
+       fault |-> None, dropped |-> {}, reads |-> <<>>, fixGoi |-> FALSE, unrec |-> {}, looked |-> {}, track |-> FALSE, stale |-> {}, fhit |-> FALSE, taint |-> {}]
 Result == LoadKey(E0, RecOff, TheKey, "load", [k \in {} |-> <<>>])
 
 n == Len(ExtsOf(ty))
